@@ -374,6 +374,9 @@ func runC06(c *Ctx) {
 	isInc := func(in ssa.Instruction) bool { d, ok := r.fieldDelta(in, r.count); return ok && d == 1 }
 	isDec := func(in ssa.Instruction) bool { d, ok := r.fieldDelta(in, r.count); return ok && d == -1 }
 	for _, f := range p.Funcs {
+		if isPrivateHelper(f) && !unitExclude[f] {
+			continue // analysed as part of the functions that call it
+		}
 		if pkgOf(f) != "packetio" {
 			continue
 		}
@@ -994,6 +997,9 @@ func runC07(c *Ctx) {
 	}
 	// limits are only written by the setters
 	for _, f := range p.Funcs {
+		if isPrivateHelper(f) && !unitExclude[f] {
+			continue // analysed as part of the functions that call it
+		}
 		if pkgOf(f) != "packetio" || f == r.SetLimitCount || f == r.SetLimitSize {
 			continue
 		}
